@@ -2,7 +2,7 @@ package main
 
 func propSpecs() map[string]*PropSpec {
 	m := map[string]*PropSpec{}
-	for _, s := range []*PropSpec{specC17(), specC09()} {
+	for _, s := range []*PropSpec{specC17(), specC09(), specC02()} {
 		m[s.ID] = s
 	}
 	return m
@@ -50,5 +50,23 @@ func specC09() *PropSpec {
 			"levels deeper than 32 excluded here (Morton range, see C06)",
 		},
 		Outside: []string{"points more than 3 pixels inside the grid (same division, no border involved)", "tile matrix sets other than the built-in accepted ones and the synthetic family"},
+	}
+}
+
+func specC02() *PropSpec {
+	return &PropSpec{
+		ID:       "C02",
+		NeedsGen: true,
+		Obligations: []Obligation{
+			{Harness: "VerifC02KernelFull", Pkg: "pointindex", Mode: "math", Tiers: "both", Internal: true, Covers: []string{"meets", "misses"},
+				Desc: "lineIntersects(l,e) == exact closed-segment/half-open-box oracle", Bounds: "all integer coordinates with |c| <= 2^60, box sides 1..2^60 (no other bound)"},
+			{Harness: "VerifC02DescentStep", Pkg: "pointindex", Mode: "math", Tiers: "both", Internal: true, Covers: []string{"descent-step", "several-children"},
+				Subst: map[string]string{"pointindex.lineIntersects": "pointindex.verifLineIntersectsContract"},
+				Desc: "one quadtree descent step: arbitrary parent, occupancy and segment meeting the parent => exactly the occupied children met, in order of travel",
+				Bounds: "all integers |c| <= 2^58, half span 1..2^58, all 16 occupancies"},
+			{Harness: "VerifC02ChildrenTile", Pkg: "pointindex", Mode: "math", Tiers: "both", Internal: true, Covers: []string{"children-tile"},
+				Desc: "children extents partition the parent extent at its centre", Bounds: "deepest level 1..32 x every shallower level, pixel size 1..2^22, every pixel address, origin |c| <= 2^58"},
+		},
+		Regression: []string{"findings/C02-F1-corner-through.json", "findings/C02-F1-tip-on-exclusive-edge.json"},
 	}
 }
